@@ -53,18 +53,19 @@ def main():
             try: d = q.get_nowait()
             except queue.Empty: return
             base = d if os.path.isabs(d) else f"/verif/seeded/{d}"
-            own = json.load(open(f"{base}/meta.json"))["breaks_property"]
+            own = json.load(open(f"{base}/meta.json")).get("breaks_property", "-")
             args = own if mode == "own" else ""
             r = subprocess.run(f"python3 /verif/tools/seeded.py run {d} {args}", shell=True, env=env, capture_output=True, text=True)
             lines = [l for l in r.stdout.splitlines() if l.startswith("C")]
-            fired = [l.split()[0] for l in lines if l.split()[1] == "1"]
-            ownline = next((l for l in lines if l.startswith(own + " ")), r.stdout[-200:] + r.stderr[-200:])
+            fired = [l.split()[0] + ("(exit 2)" if l.split()[1] == "2" else "") for l in lines if l.split()[1] in ("1", "2")]
+            ownline = next((l for l in lines if l.startswith(own + " ")), "" if mode == "all" else r.stdout[-200:] + r.stderr[-200:])
             res[d] = ownline
             print(f"{os.path.basename(d)} own={own}: {ownline}" + (f"  fired={fired}" if mode == "all" else ""), flush=True)
     ts = [threading.Thread(target=work, args=(i,)) for i in range(n)]
     for t in ts: t.start()
     for t in ts: t.join()
     miss = [d for d, l in res.items() if len(l.split()) < 2 or l.split()[1] != "1"]
-    print("MISSES:", miss)
+    if mode == "own":
+        print("MISSES:", miss)
 
 main()
